@@ -1188,7 +1188,7 @@ fn corpus_cases() -> Vec<Case> {
 }
 
 // ---------------------------------------------------------------- default-thread recovery (index.json)
-fn default_recovery_check(res: &mut RunResult, with_child: bool, case_id: i64) {
+fn default_recovery_check(res: &mut RunResult, with_child: bool, case_id: i64) -> String {
     let scratch = Scratch::new("c04d");
     let root = scratch.path().to_path_buf();
     let o = open(&root);
@@ -1206,6 +1206,33 @@ fn default_recovery_check(res: &mut RunResult, with_child: bool, case_id: i64) {
     let o = open(&root);
     let got = o.store.ensure_default();
     res.oracle_checks += 1;
+    // for the model (Model/Cache.v recover_default): the continuity_created frames of the log, threads numbered by first appearance
+    let mut ids: Vec<String> = vec![];
+    let mut created: Vec<String> = vec![];
+    let mut wss: Vec<String> = vec![];
+    let raw = std::fs::read(root.join("data").join("events.jsonl")).unwrap_or_default();
+    let mut my_ws = 0usize;
+    for line in raw.split_inclusive(|b| *b == b'\n') {
+        let Ok(ev) = serde_json::from_slice::<Event>(line) else { continue };
+        if let EventKind::ContinuityCreated { workspace, .. } = &ev.kind {
+            if !ids.contains(&ev.session_id) {
+                ids.push(ev.session_id.clone());
+            }
+            if !wss.contains(workspace) {
+                wss.push(workspace.clone());
+            }
+            let w = wss.iter().position(|x| x == workspace).unwrap() + 1;
+            if ev.session_id == id {
+                my_ws = w;
+            }
+            created.push(format!("({}, {}, {})", ev.timestamp_ms, ids.iter().position(|x| *x == ev.session_id).unwrap() + 1, w));
+        }
+    }
+    let got_term = match &got {
+        Ok(g) => match ids.iter().position(|x| x == g) { Some(i) => format!("(Some {})", i + 1), None => "(Some 999999)".to_string() },
+        Err(_) => "None".to_string(),
+    };
+    let term = format!("(Some ({}, [{}], {}))", my_ws, created.join("; "), got_term);
     match got {
         Ok(g) if g == id => {}
         Ok(g) if existing.contains(&g) => {
@@ -1220,6 +1247,7 @@ fn default_recovery_check(res: &mut RunResult, with_child: bool, case_id: i64) {
         Ok(g) => res.oracle_violations.push(OracleViolation { case_id, what: format!("ensure_default created/returned unknown thread {g} after loss of index.json"), class: "default_recovery_creates_thread".into(), replay: json!({"with_child": with_child}) }),
         Err(e) => res.oracle_violations.push(OracleViolation { case_id, what: format!("ensure_default failed after loss of index.json: {e}"), class: "default_recovery_fails".into(), replay: json!({"with_child": with_child}) }),
     }
+    term
 }
 
 // ---------------------------------------------------------------- one case
@@ -1381,6 +1409,13 @@ fn main() {
     let mut distinct = Distinct::default();
     let mut seen_classes: BTreeMap<String, u64> = BTreeMap::new();
 
+    // default-thread recovery (the only claim about index.json): oracle + model terms riding on the first cases
+    let mut recover_terms: Vec<String> = vec![];
+    if a.replay.is_none() {
+        recover_terms.push(default_recovery_check(&mut res, false, -100_001));
+        recover_terms.push(default_recovery_check(&mut res, true, -100_002));
+    }
+
     for (ci, case) in cases.iter().enumerate() {
         let out = run_case(case);
         res.evaluations += 1;
@@ -1437,7 +1472,7 @@ fn main() {
                             _ => true,
                         };
                     let term = format!(
-                        "{{| c_log := {}; c_full := {}; c_query := {}; c_cmp_fast := {}; c_truth := {}; c_fast := {}; c_ord := {}; c_comp := {} |}}",
+                        "{{| c_log := {}; c_full := {}; c_query := {}; c_cmp_fast := {}; c_truth := {}; c_fast := {}; c_ord := {}; c_comp := {}; c_recover := {} |}}",
                         log_term, full_term, coq_query_term(q, which, &out.abs, &out.messages), coq_bool(cmp), coq_list_n(&truth_enc[j]), coq_list_n(&fast_enc[j]),
                         ord_term.take().unwrap_or_else(|| "[]".into()), // the history's index write steps ride on its first case
                         // latest checkpoint through the .comp sidecar: compared when nothing can rebuild the caches before the
@@ -1447,7 +1482,8 @@ fn main() {
                             format!("(Some {})", coq_opt(&out.comp, |ls| coq_list(ls, |(g, x)| if *g { format!("G {x}") } else { format!("B {x}") })))
                         } else {
                             "None".to_string()
-                        }
+                        },
+                        recover_terms.pop().unwrap_or_else(|| "None".to_string())
                     );
                     let id = w.push(term);
                     flagged_case_ids.push(id);
@@ -1482,11 +1518,6 @@ fn main() {
                 }
             }
         }
-    }
-    // default-thread recovery (the only claim about index.json)
-    if a.replay.is_none() {
-        default_recovery_check(&mut res, false, -100_001);
-        default_recovery_check(&mut res, true, -100_002);
     }
     w.flush();
     for (c, n) in &seen_classes {
